@@ -117,6 +117,31 @@ def c08_task(arg):
                                     out["violations"].append(("window-entry-wrong-payload", dict(mode=mode, prune=prune, option=oname, eps=e, node=t["node"], seq=t["seq"], input=iname, entry_seq=sq, got_tag=list(tag), expected=exp), rp))
                     if not trace:
                         out["violations"].append(("dynamic-run-produced-no-trace", dict(mode=mode, prune=prune), rp))
+                # gym-style driver of a stateless agent: every step() overrides the supervisor with the step state it got
+                # from reset() and an output tagged with the scheduled sequence number; readers of the supervisor's output
+                # must still find (supervisor, eps, seq) at the scheduled entries
+                if oname == "auto" and any(e_["o"] == sup.name for e_ in src["spec"]["edges"]) and g.max_steps >= 3:
+                    from vf.probes import override_output
+
+                    del trace[:]
+                    e = 0
+                    gs = init_with_rng(g, None, eps=e, seed=arg.get("seed", 0))
+                    gs, ss0 = jax.jit(g.reset)(gs)
+                    stepo = jax.jit(lambda a, b, c: g.step(a, b, c))
+                    for k in range(min(g.max_steps - 1, 4)):
+                        gs, _ = stepo(gs, ss0, override_output(ids[sup.name], e, k))
+                    jax.block_until_ready(gs)
+                    jax.effects_barrier()
+                    out["traces"] += 1
+                    for t in trace:
+                        for (iname, seqs, a, b, dh, tags) in t["inputs"]:
+                            pid = ids[iname]
+                            for sq, tag in zip(seqs, tags):
+                                out["transitions"] += 1
+                                exp = [pid, e, sq] if sq >= 0 else [pid, -1, -1]
+                                if list(tag) != exp:
+                                    out["violations"].append(("window-entry-wrong-payload:override-with-stale-step-state", dict(mode=mode, prune=prune, node=t["node"], seq=t["seq"], input=iname, entry_seq=sq, got_tag=list(tag), expected=exp), rp))
+                    del trace[:]
         # an inadmissible size must be rejected by Graph.__init__
         big = {k: v for k, v in auto.items() if v > 1}
         if big:
@@ -314,6 +339,38 @@ def c06c_task(arg):
         gs = init_with_rng(g, None, eps=e)
         jax.block_until_ready(jax.jit(lambda a: g.rollout(a, carry_only=False))(gs))
         judge("rollout-full-jit", e, _expected_executions(slots, sup.name, e, M))
+        # a second episode continued from the final state of the first (replace_eps / replace_step, no re-init)
+        if len(eps_py) > 1:
+            del trace[:]
+            gs = init_with_rng(g, None, eps=0)
+            gs = fn(gs)
+            jax.block_until_ready(gs)
+            jax.effects_barrier()
+            del trace[:]
+            gs = gs.replace_eps(g.timings, 1).replace_step(g.timings, 0)
+            jax.block_until_ready(fn(gs))
+            judge("continued-second-episode", 1, _expected_executions(slots, sup.name, 1, M))
+        # starting in the middle of an episode: the steps of partitions k, k+1 run with the vertices' own sequence numbers
+        if M >= 3:
+            del trace[:]
+            gs = init_with_rng(g, None, eps=0, step=1)
+            runj = jax.jit(g.run)
+            gs = runj(runj(gs))
+            jax.block_until_ready(gs)
+            exp = collections.Counter()
+            for name, s_ in slots.items():
+                for p_ in (1, 2):
+                    if s_["run"][0, p_] and s_["kind"] != sup.name:
+                        exp[(s_["kind"], int(s_["seq"][0, p_]))] += 1
+            # (the supervisor's own steps depend on its carried-over counter when entering mid-episode: not part of the count)
+            jax.effects_barrier()
+            got = collections.Counter((t["node"], t["seq"]) for t in trace if t["node"] != sup.name)
+            out["traces"] += 1
+            out["transitions"] += len(trace)
+            if got != exp:
+                diff = {str(k): (got.get(k, 0), exp.get(k, 0)) for k in set(got) | set(exp) if got.get(k, 0) != exp.get(k, 0)}
+                out["violations"].append(("compiled:mid-episode-start:steps-run-with-wrong-seq", dict(mode=mode, prune=prune, diff=dict(list(diff.items())[:8])), dict(src=src, mode=mode, prune=prune, driver="start-step-1", eps=0)))
+            del trace[:]
         if arg.get("eager", True):
             e = len(eps_py) - 1
             gs = init_with_rng(g, None, eps=e)
